@@ -315,7 +315,11 @@ def run_bindings(ctx, case):
     ctx.check(ok, 'reference-lost-bindings-after-method-registration',
               'instance built through an earlier reference has a=%r meth()->%r, expected a=%r m=%r\n%s' % (getattr(inst, 'a', None), inst.meth()[1], exp_a, exp_m, text.replace(pk, 'PK')))
   # one section per (scope, object)
-  s = gin.config_str()
+  try:
+    s = gin.config_str()
+  except Exception as e:  # pylint: disable=broad-except
+    ctx.check(False, 'config-str-raised', 'config_str() raised %s: %s' % (type(e).__name__, str(e)[:300].replace(pk, 'PK')))
+    return
   nsec = sum(1 for l in s.splitlines() if l.startswith('# Parameters for '))
   want = len(set((k[0], k[1]) for k in snap.store_nonempty(gc)))
   objs_bound = len({(sc, o) for (sc, o) in model} | ({('', 'sub.gamma.fg')} if ref_created_at is not None else set()))
@@ -479,7 +483,11 @@ def run_alias_collision(ctx, case):
   ctx.count('deliveries_compared')
   got = obs()
   ctx.check(got == (2, 20, 1, 10), 'binding-through-other-spelling-lost', 'alias collision: (alpha.K.a, beta.K.a, alpha.shared.v, beta.shared.v) = %r, expected (2, 20, 1, 10)' % (got,))
-  s = gin.config_str()
+  try:
+    s = gin.config_str()
+  except Exception as e:  # pylint: disable=broad-except
+    ctx.check(False, 'config-str-raised', 'config_str() raised %s: %s' % (type(e).__name__, str(e)[:300].replace(pk, 'PK')))
+    return
   gin.clear_config()
   try:
     gin.parse_config(s)
